@@ -415,8 +415,10 @@ def gen_random (rng, count, maxlen):
         ops.append(["fm", cmd, mi,
                     1 if mi == EXACT else rng.choice([1, 2, 2, 0x8000, 0, 0xffff]),
                     rng.choice([0, SFR, SFR, SFR | CO, CO]),
+                    # the out_port filter applies to the delete commands only;
+                    # on add/modify the field is noise and must be ignored
                     rng.choice([0xffff, 0xffff, 2, 3]) if cmd in (3, 4)
-                    else 0xffff,
+                    else rng.choice([0xffff, 0xffff, 0xffff, 2, 3, 0, 0xfffd]),
                     rng.choice([0, 0, 3, 7]), rng.choice([0, 0, 3, 7]),
                     rng.randrange(len(ACTIONS))])
       elif r < 0.78:
